@@ -85,6 +85,12 @@ func c09Targets(segs []string, maxSeg int) []string {
 	out = append(out, "/", "/c", "/c?c2=h.example", "/i/x", "/o/x", "/io", "/io/", "/i/", "/o/", "/i", "/o", "/c/", "*")
 	/* /c with queries its handler cannot make sense of: still /c. */
 	out = append(out, "/c?x=%zz", "/c?%", "/c?a=1;b=2", "/c?c2=%zz", "/c?c2=")
+	/* Files asked for with other methods: whatever is served is reported. */
+	for _, m := range []string{"POST", "PUT", "DELETE", "FOO"} {
+		for _, t := range []string{"/a", "/x", "/", "/sub/a"} {
+			out = append(out, m+" "+t)
+		}
+	}
 	/* The shell endpoints with other methods (a target written "METHOD /path"). */
 	for _, m := range []string{"POST", "PUT", "DELETE", "OPTIONS"} {
 		for _, t := range []string{"/c", "/i/x", "/o/x", "/io"} {
